@@ -129,6 +129,10 @@ def check(prop, mod, a, seed, t0):
         got = {ln for (fq, ln) in d["reached"] if fq == t._fn_fqn}
         miss = [ln for ln in t._stmt_lines if ln not in got and ln not in getattr(t, "dead_lines", ())]
         miss = [ln for ln in miss if not t.is_declared_dead(ln)]
+        for fq, lines in getattr(t, "_cover_extra", []):
+            got2 = {ln for (f2, ln) in d["reached"] if f2 == fq or f2.startswith("<closure")}
+            allreached = {ln for (_f, ln) in d["reached"]}
+            miss += [ln for ln in lines if ln not in allreached]
         if miss:
             unreached[t.name] = miss
         eng.target_results[t.name]["path_ends"] = d["ends"]
